@@ -188,6 +188,11 @@ class ObjInterp(Interp):
                 raise LexUnknown("yield outside a generator call")
             self._yield[-1].append(self.ev(e.value, env) if e.value is not None else None)
             return None
+        if isinstance(e, ast.YieldFrom):
+            if not self._yield:
+                raise LexUnknown("yield from outside a generator call")
+            self._yield[-1].extend(self.iterate(self.ev(e.value, env)))
+            return None
         if isinstance(e, ast.Lambda):
             return ("lambda", e, env)
         return super().ev(e, env)
